@@ -562,7 +562,9 @@ mod builtins {
                 .and_then(|x| x.try_iter_pairs())
             {
                 for (key, value) in pairs {
-                    if let Some(key) = key.as_str() {
+                    // only string keys are attributes: bytes that hold utf-8 are
+                    // never equal to a string and must not become (or replace) one.
+                    if let Some(key) = key.as_key_str() {
                         ns.set_value(key, value);
                     }
                 }
